@@ -20,7 +20,70 @@ type mop struct {
 
 var c12Keys = []string{"a", "b", "c", "k1"}
 
-func genC12Ops(rng *rand.Rand, n int, depth int, inLoop bool) []mop {
+// c12Shadow is a plain Go dictionary followed by the generator only to build interesting
+// equality operands (same / one key fewer / one key more / one value changed); it is never used as an oracle.
+type c12Shadow struct {
+	keys []string
+	vals map[string]int64
+}
+
+func (s *c12Shadow) set(k string, v int64) {
+	if _, ok := s.vals[k]; !ok {
+		s.keys = append(s.keys, k)
+	}
+	s.vals[k] = v
+}
+
+func (s *c12Shadow) del(k string) {
+	if _, ok := s.vals[k]; !ok {
+		return
+	}
+	delete(s.vals, k)
+	for i, x := range s.keys {
+		if x == k {
+			s.keys = append(s.keys[:i:i], s.keys[i+1:]...)
+			break
+		}
+	}
+}
+
+func (s *c12Shadow) reset(lit [][2]any) {
+	s.keys, s.vals = nil, map[string]int64{}
+	for _, kv := range lit {
+		s.set(kv[0].(string), kv[1].(int64))
+	}
+}
+
+func (s *c12Shadow) eqLit(rng *rand.Rand) [][2]any {
+	lit := [][2]any{}
+	perm := rng.Perm(len(s.keys))
+	for _, i := range perm {
+		lit = append(lit, [2]any{s.keys[i], s.vals[s.keys[i]]})
+	}
+	switch rng.Intn(5) {
+	case 0: // one key fewer
+		if len(lit) > 1 {
+			lit = lit[1:]
+		}
+	case 1: // one key more
+		for _, k := range c12Keys {
+			if _, ok := s.vals[k]; !ok {
+				lit = append(lit, [2]any{k, int64(rng.Intn(5))})
+				break
+			}
+		}
+	case 2: // one value changed
+		if len(lit) > 0 {
+			lit[0] = [2]any{lit[0][0], lit[0][1].(int64) + 1}
+		}
+	}
+	if len(lit) == 0 {
+		lit = [][2]any{{"a", int64(1)}}
+	}
+	return lit
+}
+
+func genC12Ops(rng *rand.Rand, n int, depth int, inLoop bool, sh *c12Shadow, initial [][2]any) []mop {
 	ops := make([]mop, 0, n)
 	for i := 0; i < n; i++ {
 		key := c12Keys[rng.Intn(len(c12Keys))]
@@ -29,9 +92,23 @@ func genC12Ops(rng *rand.Rand, n int, depth int, inLoop bool) []mop {
 		}
 		switch k := rng.Intn(20); {
 		case k < 5:
-			ops = append(ops, mop{Kind: "set", Key: key, Val: int64(rng.Intn(19) - 9)})
-		case k < 9:
+			v := int64(rng.Intn(19) - 9)
+			ops = append(ops, mop{Kind: "set", Key: key, Val: v})
+			if key != "" {
+				sh.set(key, v)
+			}
+		case k < 8:
 			ops = append(ops, mop{Kind: "del", Key: key})
+			if key != "" {
+				sh.del(key)
+			}
+		case k < 9:
+			if !inLoop {
+				ops = append(ops, mop{Kind: "reset", Lit: initial})
+				sh.reset(initial)
+			} else {
+				ops = append(ops, mop{Kind: "len"})
+			}
 		case k < 11:
 			ops = append(ops, mop{Kind: "get", Key: key})
 		case k < 13:
@@ -41,10 +118,14 @@ func genC12Ops(rng *rand.Rand, n int, depth int, inLoop bool) []mop {
 		case k < 16:
 			ops = append(ops, mop{Kind: "print"})
 		case k < 17:
-			ops = append(ops, mop{Kind: "eq", Lit: genC12Lit(rng, 1+rng.Intn(3))})
+			if rng.Intn(3) == 0 {
+				ops = append(ops, mop{Kind: "eq", Lit: genC12Lit(rng, 1+rng.Intn(3))})
+			} else {
+				ops = append(ops, mop{Kind: "eq", Lit: sh.eqLit(rng)})
+			}
 		default:
 			if depth < 2 {
-				ops = append(ops, mop{Kind: "loop", Body: genC12Ops(rng, rng.Intn(4), depth+1, true)})
+				ops = append(ops, mop{Kind: "loop", Body: genC12Ops(rng, rng.Intn(4), depth+1, true, sh, initial)})
 			} else {
 				ops = append(ops, mop{Kind: "print"})
 			}
@@ -81,6 +162,8 @@ func c12OpsSX(ops []mop) SX {
 			l = append(l, Lst(Sym(o.Kind)))
 		case "eq":
 			l = append(l, Lst(Sym("eq"), c12LitSX(o.Lit)))
+		case "reset":
+			l = append(l, Lst(Sym("reset"), c12LitSX(o.Lit)))
 		case "loop":
 			l = append(l, Lst(Sym("loop"), c12OpsSX(o.Body)))
 		}
@@ -111,8 +194,9 @@ func c12Render(lit [][2]any, ops []mop, rng *rand.Rand) string {
 	b.WriteString("func setk mm:{}num k:string v:num\n    mm[k] = v\nend\n")
 	b.WriteString("func delk mm:{}num k:string\n    del mm k\nend\n")
 	b.WriteString("func getk:num mm:{}num k:string\n    return mm[k]\nend\n")
+	b.WriteString("func fresh:{}num\n    return " + c12LitEvy(lit) + "\nend\n")
 	b.WriteString("m:{}num\n")
-	b.WriteString("m = " + c12LitEvy(lit) + "\n")
+	b.WriteString("m = (fresh)\n")
 	b.WriteString("m2 := m\nm3 := m2\n")
 	b.WriteString("w:any\nw = m\nm4 := w.({}num)\n")
 	b.WriteString("print (len m) (len m2) (len m3) (len m4)\n")
@@ -163,6 +247,8 @@ func c12Render(lit [][2]any, ops []mop, rng *rand.Rand) string {
 				} else {
 					fmt.Fprintf(&b, "%sprint (%s == %s)\n", indent, c12LitEvy(o.Lit), a)
 				}
+			case "reset":
+				fmt.Fprintf(&b, "%sm = (fresh)\n%sm2 = m\n%sm3 = m2\n%sw = m\n%sm4 = w.({}num)\n", indent, indent, indent, indent, indent)
 			case "loop":
 				v := fmt.Sprintf("k%d", depth)
 				fmt.Fprintf(&b, "%sfor %s := range %s\n%s    print %s\n", indent, v, a, indent, v)
@@ -182,7 +268,7 @@ func c12Nontrivial(ops []mop) bool {
 		for _, o := range ops {
 			n++
 			switch o.Kind {
-			case "set", "del":
+			case "set", "del", "reset":
 				mut = true
 			case "loop":
 				if mut {
@@ -266,7 +352,9 @@ func runC12(cfg Config, r *Result) {
 	maxLen := cfg.N(12, 40)
 	for i := 0; i < n; i++ {
 		lit := genC12Lit(cfg.Rng, cfg.Rng.Intn(5))
-		ops := genC12Ops(cfg.Rng, 1+cfg.Rng.Intn(maxLen), 0, false)
+		sh := &c12Shadow{}
+		sh.reset(lit)
+		ops := genC12Ops(cfg.Rng, 1+cfg.Rng.Intn(maxLen), 0, false, sh, lit)
 		c12Check(lit, ops, cfg.Rng.Int63(), model, r)
 	}
 }
